@@ -298,7 +298,33 @@ def chkLisomap (fs : List (String × String)) : String :=
                   if lam.get i ≤ tolL then acc
                   else maxR acc ((sumFin nl fun a => absR (V.get a i)) * scaleB / absR (q.get i))) (maxR 1 (maxAbs Ym))
               ("ok", (cmpMat Yi Ym (tol30 * termScale)).1)
-        s!"model={model} pre={pre} root={if qOk then "ok" else "bad"} {eig} post={post}"
+        -- specification-level oracle, independent of the solver's eigenvectors: the returned columns are the right
+        -- singular directions of the model's B (from the observed one-directional geodesics) scaled to norm² √λ:
+        --   (BᵀB) y_i = λ_i y_i,  y_i·y_j = δ_ij q_i²  (zero column where the guard fires);  and the selected λ are the
+        -- largest ones: the rest of the spectrum of the PSD matrix B Bᵀ sums to tr − Σλ, each ≤ λ_min
+        let (svd, top) :=
+          match finiteMat? n d Y with
+          | none => ("nonfinite", "na")
+          | some Yi =>
+            if !dense then ("na", "na") else
+            let M := DMat.ofFn (Mat.mul (Mat.transpose Bm.get) Bm.get)
+            let MY := DMat.ofFn (Mat.mul M.get Yi.get)
+            let kept (i : Fin d) : Bool := decide (tolL < lam.get i)
+            let res := DMat.ofFn (fun x i => if kept i then MY.get x i - lam.get i * Yi.get x i else Yi.get x i : Mat n d Rat)
+            let scaleR := maxR 1 (maxAbs M) * maxR 1 (maxAbs Yi) * (n : Rat)
+            let G := DMat.ofFn (Mat.mul (Mat.transpose Yi.get) Yi.get)
+            let want (i j : Fin d) : Rat := if i = j ∧ kept i then q.get i * q.get i else 0
+            let gdef := DMat.ofFn (fun i j => G.get i j - want i j : Mat d d Rat)
+            let scaleG := (List.finRange d).foldl (fun acc i => maxR acc (q.get i * q.get i)) 1
+            let svd := if maxAbs res > tol30 * scaleR then "bad:residual"
+                       else if maxAbs gdef > tol30 * scaleG then "bad:gram" else "ok"
+            let Sm := lisomapSymD Bm
+            let tr := sumFin nl fun a => Sm.get a a
+            let sumSel := sumFin d fun i => lam.get i
+            let lmin := (List.finRange d).foldl (fun acc i => minR acc (lam.get i)) (if h : 0 < d then lam.get ⟨0, h⟩ else 0)
+            let top := if tr - sumSel > ((nl - d : Nat) : Rat) * maxR lmin 0 + tol30 * maxR 1 tr then "bad" else "ok"
+            (svd, top)
+        s!"model={model} pre={pre} root={if qOk then "ok" else "bad"} {eig} post={post} svd={svd} top={top}"
       | _, _, _, _ => "bad-case:obs"
     | none => "bad-case:G"
   | _, _, _ => "bad-case"
